@@ -183,3 +183,117 @@ def inline_locals(expr, fn_node, depth: int = 4, keep: set | None = None):
             return node
 
     return Sub(depth).visit(copy.deepcopy(expr))
+
+
+# ------------------------------------------------------------------------------------------ match statements as if-chains
+_MATCH_N = [0]
+
+
+def desugar_match(st: "ast.Match"):
+    """`match S: case P1 [if g1]: B1 ...` as `[t = S; if <P1 matches t> [and g1]: <bind>; B1  elif ...]`. Patterns supported: values,
+    singletons, wildcards and captures, `as`, or-patterns, fixed-length sequences, class patterns with keyword attributes.
+    Returns a list of statements, or None when a pattern is outside this subset. The same (cached) desugaring is used by the
+    interpreter and by the CFG builder, so both see the same nodes."""
+    cached = getattr(st, "_desugared", None)
+    if cached is not None:
+        return cached or None
+    _MATCH_N[0] += 1
+    tmp = f"__match{_MATCH_N[0]}"
+
+    def load(n):
+        return ast.Name(id=n, ctx=ast.Load())
+
+    def pat(p, subj):
+        """(test expr | None for 'always', [binding statements]) or None when unsupported."""
+        if isinstance(p, ast.MatchValue):
+            return ast.Compare(left=subj, ops=[ast.Eq()], comparators=[p.value]), []
+        if isinstance(p, ast.MatchSingleton):
+            return ast.Compare(left=subj, ops=[ast.Is()], comparators=[ast.Constant(value=p.value)]), []
+        if isinstance(p, ast.MatchAs):
+            inner = (None, []) if p.pattern is None else pat(p.pattern, subj)
+            if inner is None:
+                return None
+            binds = list(inner[1])
+            if p.name is not None:
+                binds.append(ast.Assign(targets=[ast.Name(id=p.name, ctx=ast.Store())], value=subj))
+            return inner[0], binds
+        if isinstance(p, ast.MatchOr):
+            parts = [pat(q, subj) for q in p.patterns]
+            if any(x is None or x[1] for x in parts):
+                return None
+            if any(x[0] is None for x in parts):
+                return None, []
+            return ast.BoolOp(op=ast.Or(), values=[x[0] for x in parts]), []
+        if isinstance(p, ast.MatchSequence):
+            if any(isinstance(q, ast.MatchStar) for q in p.patterns):
+                return None
+            if isinstance(subj, ast.Tuple) and len(subj.elts) == len(p.patterns):
+                subs = list(subj.elts)
+                tests = []
+            else:
+                subs = [ast.Subscript(value=subj, slice=ast.Constant(value=i), ctx=ast.Load()) for i in range(len(p.patterns))]
+                tests = [ast.Compare(left=ast.Call(func=load("len"), args=[subj], keywords=[]), ops=[ast.Eq()], comparators=[ast.Constant(value=len(p.patterns))])]
+            binds = []
+            for q, sub in zip(p.patterns, subs):
+                r = pat(q, sub)
+                if r is None:
+                    return None
+                if r[0] is not None:
+                    tests.append(r[0])
+                binds += r[1]
+            return (None if not tests else (tests[0] if len(tests) == 1 else ast.BoolOp(op=ast.And(), values=tests))), binds
+        if isinstance(p, ast.MatchClass):
+            if p.patterns:
+                return None
+            tests = [] if (isinstance(p.cls, ast.Name) and p.cls.id == "object") else [ast.Call(func=load("isinstance"), args=[subj, p.cls], keywords=[])]
+            binds = []
+            for attr, q in zip(p.kwd_attrs, p.kwd_patterns):
+                tests.append(ast.Call(func=load("hasattr"), args=[subj, ast.Constant(value=attr)], keywords=[]))
+                r = pat(q, ast.Attribute(value=subj, attr=attr, ctx=ast.Load()))
+                if r is None:
+                    return None
+                if r[0] is not None:
+                    tests.append(r[0])
+                binds += r[1]
+            return (None if not tests else (tests[0] if len(tests) == 1 else ast.BoolOp(op=ast.And(), values=tests))), binds
+        return None
+
+    if isinstance(st.subject, ast.Tuple):
+        prelude, subj = [], st.subject  # `match a, b:` — the elements are read where the patterns need them
+        simple = all(isinstance(e, (ast.Name, ast.Constant, ast.Attribute)) or (isinstance(e, ast.Call) and isinstance(e.func, ast.Name) and e.func.id == "len") for e in subj.elts)
+        if not simple:
+            names = []
+            for i, e in enumerate(subj.elts):
+                nm = f"{tmp}_{i}"
+                prelude.append(ast.Assign(targets=[ast.Name(id=nm, ctx=ast.Store())], value=e))
+                names.append(load(nm))
+            subj = ast.Tuple(elts=names, ctx=ast.Load())
+    elif isinstance(st.subject, ast.Name):
+        prelude, subj = [], st.subject
+    else:
+        prelude, subj = [ast.Assign(targets=[ast.Name(id=tmp, ctx=ast.Store())], value=st.subject)], load(tmp)
+    chain = None
+    for case in reversed(st.cases):
+        r = pat(case.pattern, subj)
+        if r is None:
+            st._desugared = []
+            return None
+        test, binds = r
+        if case.guard is not None:
+            if binds:
+                st._desugared = []
+                return None  # a guard reading captured names needs the bindings first: not modelled
+            test = case.guard if test is None else ast.BoolOp(op=ast.And(), values=[test, case.guard])
+        body = binds + list(case.body)
+        if test is None:
+            chain = body  # irrefutable: everything below is unreachable
+        else:
+            chain = [ast.If(test=test, body=body, orelse=chain or [])]
+    out = prelude + (chain or [])
+    for x in out:
+        for n in ast.walk(x):
+            if not hasattr(n, "lineno"):
+                ast.copy_location(n, st)
+        ast.fix_missing_locations(x)
+    st._desugared = out
+    return out
